@@ -228,12 +228,17 @@ def _limits():
         pass
 
 
+SAME_THREAD = [False]     # set by run_hx(..., same_thread=True): all cases of the process on ONE thread (HX_SAME_THREAD)
+
+
 def _run_hx_once(cases, timeout):
     os.makedirs(os.path.join(BUILD, "tmp"), exist_ok=True)
     outp = os.path.join(BUILD, "tmp", "hx-out-%d.tsv" % os.getpid())
     env = dict(os.environ)
     env["HX_OUT"] = outp
     env["HX_TMP"] = os.path.join(BUILD, "tmp")
+    if SAME_THREAD[0]:
+        env["HX_SAME_THREAD"] = "1"
     try:
         p = subprocess.run([HX], input=write_cases(cases), stdout=subprocess.DEVNULL, stderr=subprocess.PIPE,
                            text=True, timeout=timeout, env=env, preexec_fn=_limits)
@@ -247,6 +252,16 @@ def _run_hx_once(cases, timeout):
 
 
 MAX_DEATHS = 3      # per batch: after that many isolated culprits the remaining cases are not run any more
+
+
+def run_hx_same_thread(cases, timeout=1800):
+    """the cases one after another on ONE thread of ONE process (thread-local state of the interpreter survives from case to case)"""
+    SAME_THREAD[0] = True
+    try:
+        rc, err, res = _run_hx_once(cases, timeout)
+    finally:
+        SAME_THREAD[0] = False
+    return res if rc == 0 else None
 
 
 def run_hx(cases, timeout=1800, _deaths=None):
